@@ -30,6 +30,7 @@ RULE = (
     ' Round 5: load via own path or explicit argument; earlier saves by the same object, file removed in between, repeated saves; an `overlap` kind (second save while the first is in flight, registry grown meanwhile) on the virtual loop.'
     ' Round 8: comment-, template- and JSON-looking texts; hash-equal integer changes between two saves.'
     ' Round 9: `reload_after_use`; `build=outside|two-runs` (objects created before / reused across event loops).'
+    ' Round 10: texts not in Unicode NFC; `nested_edit` (child values, descriptions, children edited in place between two saves).'
 )
 ASSUMPTIONS = [
     "real files in a scratch directory (tmpfs when available), aiofiles and its thread pool unmocked",
